@@ -43,10 +43,12 @@ class TSock:
     def deliver(self, t, kind, data=b""):
         s = S.cur()
         t = max(t, s.now)
-        # keep arrival order stable
-        if self.inbox and t < self.inbox[-1][0]:
-            t = self.inbox[-1][0]
-        self.inbox.append([t, kind, bytes(data)])
+        # the stream is ordered by the instant the server sends: insert in time order (stable for equal instants),
+        # never before a data item that is already partly consumed
+        i = len(self.inbox)
+        while i > 0 and self.inbox[i - 1][0] > t and not (i - 1 == 0 and self.off):
+            i -= 1
+        self.inbox.insert(i, [t, kind, bytes(data)])
         s.add_event(t)
 
     def _head(self):
